@@ -134,6 +134,20 @@ func init() {
 		st.havocKey(ek, nil)
 		return e.freshResult(st, p, rt)
 	}
+	// slices.ContainsFunc(s, f): f is called on elements of s in place. If f
+	// is a known function whose (inferred or declared) effects are empty, the
+	// call changes nothing; the result is not interpreted.
+	genericModels["slices.ContainsFunc["] = func(e *Enc, fr *frame, st *State, a []Value, p string, rt types.Type) Value {
+		pure := false
+		if a[1].clo != nil && a[1].clo.fn != nil && a[1].clo.fn.Blocks != nil {
+			ws := e.v.funcWriteSet(e, a[1].clo.fn)
+			pure = !ws.all && !ws.ghosts && !ws.closes && len(ws.keys) == 0
+		}
+		if !pure {
+			e.unknownCall(fr, st, "slices.ContainsFunc with a function of unknown effect", a)
+		}
+		return e.freshValue(st, p, boolT)
+	}
 	genericModels["slices.Contains["] = func(e *Enc, fr *frame, st *State, a []Value, p string, rt types.Type) Value {
 		s, v := a[0], a[1]
 		et := s.typ.Underlying().(*types.Slice).Elem()
